@@ -1,9 +1,8 @@
 package gofakes3
 
 import (
-	"fmt"
+	"errors"
 	"io"
-	"io/ioutil"
 )
 
 type chunkedReader struct {
@@ -24,6 +23,58 @@ func (r *chunkedReader) frameErr(err error) error {
 		return io.ErrUnexpectedEOF
 	}
 	return err
+}
+
+// errChunkFraming reports a body that is not framed the way
+// STREAMING-AWS4-HMAC-SHA256-PAYLOAD prescribes.
+var errChunkFraming = ErrorMessage(ErrIncompleteBody, "malformed aws-chunked framing")
+
+// errChunkSize is what a chunk header that does not start with a hexadecimal
+// size has always been answered with (it used to come from fmt.Fscanf).
+var errChunkSize = errors.New("expected integer")
+
+func isHexDigit(c byte) bool {
+	return c >= '0' && c <= '9' || c >= 'a' && c <= 'f' || c >= 'A' && c <= 'F'
+}
+
+// expect consumes exactly the bytes of lit from the inner stream.
+func (r *chunkedReader) expect(lit string) error {
+	var buf [16]byte
+	got := buf[:len(lit)]
+	if _, err := io.ReadFull(r.inner, got); err != nil {
+		return r.frameErr(err)
+	}
+	if string(got) != lit {
+		return errChunkFraming
+	}
+	return nil
+}
+
+// readChunkSize reads the hexadecimal chunk size up to and including the ';'
+// that ends it: hex digits only, no sign, no padding.
+func (r *chunkedReader) readChunkSize() (int, error) {
+	size, digits := 0, 0
+	var one [1]byte
+	for {
+		if _, err := io.ReadFull(r.inner, one[:]); err != nil {
+			if digits > 0 && err == io.EOF {
+				err = io.ErrUnexpectedEOF
+			}
+			return 0, r.frameErr(err)
+		}
+		c := one[0]
+		switch {
+		case c == ';' && digits > 0:
+			return size, nil
+		case !isHexDigit(c) || digits >= 8:
+			return 0, errChunkSize
+		case c <= '9':
+			size = size<<4 | int(c-'0')
+		default:
+			size = size<<4 | int(c|0x20-'a'+10)
+		}
+		digits++
+	}
 }
 
 func newChunkedReader(inner io.Reader) *chunkedReader {
@@ -72,23 +123,42 @@ func (r *chunkedReader) Read(p []byte) (n int, err error) {
 				// Is first chunk.
 				r.notFirstChunk = true
 			} else {
-				// skip last chunk's b"\r\n"
-				_, err = io.CopyN(ioutil.Discard, r.inner, 2)
-				if err != nil {
-					return n, r.frameErr(err)
+				// the CRLF that closes the previous chunk's data
+				if err = r.expect("\r\n"); err != nil {
+					return n, err
+				}
+				if r.sawFinalChunk {
+					// The terminating chunk is closed: the stream ends here.
+					// Whatever follows, further chunks included, is not
+					// part of a well-formed upload.
+					var one [1]byte
+					if _, err = io.ReadFull(r.inner, one[:]); err == nil {
+						return n, errChunkFraming
+					}
+					return n, err
 				}
 			}
-			// read next chunk header
-			chunkSize := 0
-			_, err = fmt.Fscanf(r.inner, "%x;", &chunkSize)
+			// read next chunk header: <hex size>;chunk-signature=<64 hex digits>CRLF
+			chunkSize, err := r.readChunkSize()
 			if err != nil {
+				return n, err
+			}
+			if err = r.expect("chunk-signature="); err != nil {
+				return n, err
+			}
+			var sig [64]byte
+			if _, err = io.ReadFull(r.inner, sig[:]); err != nil {
 				return n, r.frameErr(err)
+			}
+			for _, c := range sig {
+				if !isHexDigit(c) {
+					return n, errChunkFraming
+				}
+			}
+			if err = r.expect("\r\n"); err != nil {
+				return n, err
 			}
 			r.chunkRemain = chunkSize
-			_, err = io.CopyN(ioutil.Discard, r.inner, 16+64+2) // "chunk-signature=" + sizeOfHash + "\r\n"
-			if err != nil {
-				return n, r.frameErr(err)
-			}
 			if chunkSize == 0 {
 				r.sawFinalChunk = true
 			}
